@@ -73,7 +73,7 @@ def describe_marshal(ev, obs, entry):
         def norm(t):        # drop every pair of parentheses directly around -N (to a fixpoint), read -0 as 0
             while True:
                 u = re.sub(r"\(-(\d+)\)", r"-\1", t)
-                u = re.sub(r"(?<![\w.\"])-0(?![\w.])", "0", u)
+                u = re.sub(r"(?<![\w.\"])-0(?!\w|\.\d)", "0", u)
                 if u == t:
                     return t
                 t = u
